@@ -38,5 +38,9 @@ git apply $dst/patch.diff || { echo "patch does not apply to /repo"; exit 1; }
 for id in "$@"; do
   (cd /verif && ./bin/gocv check $id --tier quick > /tmp/seed_check_$id.txt 2>&1; echo "check $id exit=$? :"; grep -E "VIOLATION|^C[0-9]+ tier" /tmp/seed_check_$id.txt | cut -c1-300)
 done
-git -C /repo checkout -- .
+git -C /repo apply -R $dst/patch.diff || git -C /repo checkout -- .
 git -C /repo status --short | head -3
+# the evidence files were just rewritten by runs on the changed tree: restore them from runs on the unchanged tree
+for id in "$@"; do
+  (cd /verif && ./bin/gocv check $id --tier quick > /dev/null 2>&1; echo "evidence of $id restored (exit=$?)")
+done
